@@ -463,7 +463,15 @@ impl<'f, 't, 'w, W: Write> Formatter<'f, 't, 'w, W> {
                  to format Unix timestamp",
             )
         })?;
-        ext.write_int(b' ', None, timestamp.as_second(), self.wtr)
+        // A Unix timestamp in seconds is the number of whole seconds that
+        // have elapsed, i.e., the floor. `as_second` truncates toward zero,
+        // which is one too many for instants before the epoch that have a
+        // fractional component.
+        let mut second = timestamp.as_second();
+        if timestamp.subsec_nanosecond() < 0 {
+            second -= 1;
+        }
+        ext.write_int(b' ', None, second, self.wtr)
     }
 
     /// %f
